@@ -13,6 +13,19 @@ def _clf(classes, seed):
     return ParzenWindowClassifier(classes=list(classes), random_state=seed)
 
 
+def _clf_alt(classes, seed):
+    """Classifier variants for strategies that only need predict_proba: smooth (Parzen window),
+    one-hot (decision tree, 1-NN) probabilities -> exact ties and zeros."""
+    from sklearn.neighbors import KNeighborsClassifier
+    from sklearn.tree import DecisionTreeClassifier
+    from skactiveml.classifier import SklearnClassifier
+    if seed % 3 == 1:
+        return SklearnClassifier(DecisionTreeClassifier(random_state=seed), classes=list(classes), random_state=seed)
+    if seed % 3 == 2:
+        return SklearnClassifier(KNeighborsClassifier(n_neighbors=1), classes=list(classes), random_state=seed)
+    return _clf(classes, seed)
+
+
 def _mix(classes, seed):
     from sklearn.mixture import BayesianGaussianMixture
     from skactiveml.classifier import MixtureModelClassifier
@@ -57,12 +70,14 @@ class Entry:
 def registry():
     import skactiveml.pool as P
     clfkw = lambda c, s: {"clf": _clf(c, s)}
+    altkw = lambda c, s: {"clf": _clf_alt(c, s)}
     E = []
     E.append(Entry("RandomSampling", lambda c, s: P.RandomSampling(random_state=s), "clf", mode="sampling", samplewise=True))
     E.append(Entry("ProbabilisticAL", lambda c, s: P.ProbabilisticAL(random_state=s), "clf", clfkw, samplewise=True))
     for m in ("least_confident", "margin_sampling", "entropy"):
-        E.append(Entry(f"UncertaintySampling[{m}]", lambda c, s, m=m: P.UncertaintySampling(method=m, random_state=s), "clf", clfkw, samplewise=True))
+        E.append(Entry(f"UncertaintySampling[{m}]", lambda c, s, m=m: P.UncertaintySampling(method=m, random_state=s), "clf", altkw, samplewise=True))
     E.append(Entry("EpistemicUncertaintySampling", lambda c, s: P.EpistemicUncertaintySampling(random_state=s), "clf", clfkw, samplewise=True, binary=True))
+    E.append(Entry("EpistemicUncertaintySampling[precompute]", lambda c, s: P.EpistemicUncertaintySampling(precompute=True, random_state=s), "clf", clfkw, samplewise=True, binary=True))
     E.append(Entry("MonteCarloEER", lambda c, s: P.MonteCarloEER(random_state=s), "clf", clfkw, samplewise=True, slow=True))
     E.append(Entry("ValueOfInformationEER", lambda c, s: P.ValueOfInformationEER(random_state=s), "clf", clfkw, feat=False, samplewise=True, slow=True))
     for m in ("KL_divergence", "vote_entropy"):
@@ -86,14 +101,14 @@ def registry():
                        lambda c, s: {"discriminator": _clf([0, 1], s)}, samplewise=g, setdep=not g))
     E.append(Entry("BatchBALD", lambda c, s: P.BatchBALD(n_MC_samples=50, random_state=s), "clf", lambda c, s: {"ensemble": _ens(c, s)}, setdep=True))
     E.append(Entry("GreedyBALD", lambda c, s: P.GreedyBALD(random_state=s), "clf", lambda c, s: {"ensemble": _ens(c, s)}, samplewise=True))
-    E.append(Entry("Clue", lambda c, s: P.Clue(random_state=s), "clf", clfkw, setdep=True))
-    E.append(Entry("DropQuery", lambda c, s: P.DropQuery(random_state=s), "clf", clfkw, setdep=True))
+    E.append(Entry("Clue", lambda c, s: P.Clue(random_state=s), "clf", altkw, setdep=True))
+    E.append(Entry("DropQuery", lambda c, s: P.DropQuery(random_state=s), "clf", altkw, setdep=True))
     E.append(Entry("CoreSet", lambda c, s: P.CoreSet(random_state=s), "clf", samplewise=True, anyidx=False))
     E.append(Entry("TypiClust", lambda c, s: P.TypiClust(random_state=s), "clf", setdep=True))
-    E.append(Entry("Badge", lambda c, s: P.Badge(random_state=s), "clf", clfkw, mode="sampling", setdep=True))
+    E.append(Entry("Badge", lambda c, s: P.Badge(random_state=s), "clf", altkw, mode="sampling", setdep=True))
     E.append(Entry("ProbCover", lambda c, s: P.ProbCover(random_state=s), "clf", setdep=True))
-    E.append(Entry("ContrastiveAL", lambda c, s: P.ContrastiveAL(random_state=s), "clf", clfkw, samplewise=True))
-    E.append(Entry("Falcun", lambda c, s: P.Falcun(random_state=s), "clf", clfkw, mode="sampling", setdep=True))
+    E.append(Entry("ContrastiveAL", lambda c, s: P.ContrastiveAL(random_state=s), "clf", altkw, samplewise=True))
+    E.append(Entry("Falcun", lambda c, s: P.Falcun(random_state=s), "clf", altkw, mode="sampling", setdep=True))
     for m in ("random", "diversity", "representativity"):
         E.append(Entry(f"RegressionTreeBasedAL[{m}]", lambda c, s, m=m: P.RegressionTreeBasedAL(method=m, random_state=s), "reg",
                        lambda c, s: {"reg": _tree(s)}, mode="sampling" if m == "random" else "max", feat=False, setdep=True))
